@@ -233,7 +233,15 @@ func (g *Gen) script(ci int, self common.Address, maxInit int, isInit bool) Scri
 			s = append(s, Act{Kind: "sc", To: callee()})
 		case 7, 8:
 			if maxInit > 0 {
-				s = append(s, Act{Kind: "cr", Val: g.smallValue(self), Init: g.r.Intn(maxInit), Salt: g.r.Bool()})
+				v := g.smallValue(self)
+				if !g.w.flags.P002 {
+					// Below Proposal002 balance writes are not journaled while nonces and the CREATE2 salt slot are:
+					// a reverted creation leaves its endowment at an address the next creation derives again.
+					// The model numbers created addresses freshly, so no generated creation carries value there
+					// (design/C06.md, "Not covered"; found by VERIF_SEED=23 thorough).
+					v = new(big.Int)
+				}
+				s = append(s, Act{Kind: "cr", Val: v, Init: g.r.Intn(maxInit), Salt: g.r.Bool()})
 			}
 		case 9:
 			ben := callee()
@@ -1007,6 +1015,9 @@ func (g *Gen) contractTx(first bool) {
 			input = assemble(w.inits[c.InitId], w.inits, nil, w.budget)
 		}
 		c.GasLimit = g.gasLimitStr(codeless, w.intrinsic(input, c.Target == nil))
+	}
+	if c.Target == nil && !w.flags.P002 {
+		c.Value = "0" // see the `cr` action: no endowment below Proposal002
 	}
 	w.QueueContract(c)
 }
